@@ -1115,7 +1115,8 @@ def best_path(paths, row=None, col=None, use_max=False, penalty=0):
         jj = j
         while jj > 0 and paths[i, jj] == -1:
             jj -= 1
-        if i - ii > 1 or (j - jj == 1 and paths[ii, j] < paths[i, jj]):
+        # (row 0 and column 0 are the border, not cells of the matrix)
+        if i - ii > 1 or jj == 0 or (j - jj == 1 and ii > 0 and paths[ii, j] < paths[i, jj]):
             i = ii
         else:
             j = jj
